@@ -17,6 +17,18 @@ func drawGrease(t *rapid.T, label string) uint16 {
 	return greaseVals[rapid.IntRange(1, 15).Draw(t, label)]
 }
 
+// drawNearGrease: an unassigned value of the shape 0xXaYa with X != Y - it looks like a
+// GREASE placeholder to the test "v&0x0f0f == 0x0a0a" but is not one (RFC 8701: both
+// octets are equal), so it counts and is hashed like any other value.
+func drawNearGrease(t *rapid.T, label string) uint16 {
+	x := rapid.IntRange(0, 15).Draw(t, label+"x")
+	y := rapid.IntRange(0, 14).Draw(t, label+"y")
+	if y >= x {
+		y++
+	}
+	return uint16(x<<12 | 0xa<<8 | y<<4 | 0xa)
+}
+
 func drawBool(t *rapid.T, label string, pctTrue int) bool {
 	// 0 (what shrinking tends to) means false
 	return rapid.IntRange(0, 99).Draw(t, label) >= 100-pctTrue
@@ -46,6 +58,8 @@ func sprinkle(t *rapid.T, label string, s []uint16, unknown []uint16) []uint16 {
 		var v uint16
 		if len(unknown) > 0 && drawBool(t, label+"_unk", 40) {
 			v = unknown[rapid.IntRange(0, len(unknown)-1).Draw(t, label+"_u")]
+		} else if drawBool(t, label+"_near", 25) {
+			v = drawNearGrease(t, label+"_ng")
 		} else {
 			v = drawGrease(t, label+"_g")
 		}
@@ -183,6 +197,9 @@ func DrawHello(t *rapid.T, o HelloOpts) *HelloPlan {
 		}
 		if drawBool(t, "vgrease", 50) {
 			vs = insertAt(vs, rapid.IntRange(0, len(vs)).Draw(t, "vgp"), drawGrease(t, "vg"))
+		}
+		if drawBool(t, "vnear", 15) {
+			vs = insertAt(vs, rapid.IntRange(0, len(vs)).Draw(t, "vnp"), drawNearGrease(t, "vn"))
 		}
 		exts = append(exts, ExtPlan{Kind: "versions", U16: vs})
 		ks := []uint16{ksGroup}
